@@ -157,6 +157,16 @@ def _coeffs(sc):
     return O, F, D
 
 
+def _pred(sx, fn, v, label):
+    """a validity predicate answers; an exception escaping from it is a violation"""
+    try:
+        return bool(fn(v))
+    except Exception as e:  # noqa: BLE001
+        sx.observe("exception", type(e).__name__)
+        sx.fail(label)
+        raise explore.Abort()
+
+
 def run_forward(sx, cfg, env):
     """validity + internal->physical for LINEAR / SCALE-LINEAR / TAB-INTP / RAT-FUNC / TEXTTABLE"""
     from odxtools.exceptions import OdxError
@@ -178,7 +188,7 @@ def run_forward(sx, cfg, env):
     else:
         ref_valid = True
         seg = None
-    got_valid = bool(cm.is_valid_internal_value(x))
+    got_valid = _pred(sx, cm.is_valid_internal_value, x, "internal-validity-predicate-answers")
     sx.require(got_valid == ref_valid, "internal-validity-matches-declared-limits")
     sx.observe("valid", got_valid)
     if not ref_valid:
@@ -259,7 +269,7 @@ def run_inverse(sx, cfg, env):
     spec = cfg["cm"]
     cat = spec["cat"]
     y, (yn, yd) = operand(sx, "y", cfg["pt"], cfg["bits"])
-    valid = bool(cm.is_valid_physical_value(y))
+    valid = _pred(sx, cm.is_valid_physical_value, y, "physical-validity-predicate-answers")
     sx.observe("valid", valid)
     if cfg.get("valid_range"):
         ylo, yhi = cfg["valid_range"]
@@ -292,6 +302,15 @@ def run_inverse(sx, cfg, env):
         else:
             ref = (y * D - O) / F
             sx.require(close(x, ref), "inverse-linear-formula")
+        sc0 = spec["scales"][0]
+        if all((_lim(sc0, k) or (None, "CLOSED"))[1] == "CLOSED" for k in ("lo", "hi")) and to_int and \
+                (cfg["pt"] in FLOATS or abs(Fraction(F) / Fraction(D)) >= 1):
+            # a physical value declared valid lies within the image of the internal limits, so its
+            # (nearest integer) pre-image lies within the closed integer limits.  (Integer physical
+            # types with slopes below 1 are excluded: the rounded image of a limit may have its
+            # formal pre-image outside.)
+            sx.require(_pred(sx, cm.is_valid_internal_value, x, "internal-validity-predicate-answers"),
+                       "pre-image-of-a-valid-physical-value-is-a-valid-internal-value")
     elif cat == "IDENTICAL":
         sx.require(x == y, "identity")
     elif cat == "TAB-INTP":
@@ -365,7 +384,7 @@ def run_roundtrip(sx, cfg, env):
     from odxtools.exceptions import OdxError
     cm = env["cm"]
     x, _ = operand(sx, "x", cfg["it"], cfg["bits"])
-    if not cm.is_valid_internal_value(x):
+    if not _pred(sx, cm.is_valid_internal_value, x, "internal-validity-predicate-answers"):
         sx.cover("invalid")
         return
     sx.cover("valid")
@@ -374,7 +393,8 @@ def run_roundtrip(sx, cfg, env):
     except OdxError:
         sx.fail("valid-internal-value-converts")
         return
-    sx.require(cm.is_valid_physical_value(y), "image-of-valid-internal-value-is-valid")
+    sx.require(_pred(sx, cm.is_valid_physical_value, y, "physical-validity-predicate-answers"),
+               "image-of-valid-internal-value-is-valid")
     try:
         x2 = cm.convert_physical_to_internal(y)
     except OdxError as e:
@@ -482,6 +502,12 @@ def methods(tier):
                                        ("INFINITE", "CLOSED"))):
                 cm = {"cat": "LINEAR", "scales": [_lin(O, F, D, lo, hi, lo_it, hi_it)]}
                 out.append(("LINEAR", it_, pt_, cm, f"{O}_{F}_{D}_{lo_it[0]}{hi_it[0]}"))
+    # one-sided limits (only a lower / only an upper internal limit), both slopes
+    for (O, F, D) in ((100, -1, 1), (3, 2, 1), (0, -0.5, 1)):
+        for it_, pt_ in (("A_INT32", "A_INT32"), ("A_INT32", "A_FLOAT64")):
+            for lo, hi, tag in ((10, None, "lower-only"), (None, 50, "upper-only"), (None, None, "unbounded")):
+                cm = {"cat": "LINEAR", "scales": [_lin(O, F, D, lo, hi)]}
+                out.append(("LINEAR", it_, pt_, cm, f"{O}_{F}_{D}_{tag}"))
     # SCALE-LINEAR
     sl = {
         "cont-incr": [_lin(0, 1, 1, -100, 0), _lin(0, 2, 1, 0, 50, "OPEN"), _lin(50, 1, 1, 50, 100, "OPEN")],
@@ -494,6 +520,9 @@ def methods(tier):
         "decr-plateau": [_lin(0, -1, 1, -100, 0), _lin(0, 0, 1, 0, 10, "OPEN", inv=5),
                          _lin(20, -2, 1, 10, 60, "OPEN")],
         "plateau-then-decr": [_lin(7, 0, 1, -100, 0, inv=-50), _lin(7, -1, 1, 0, 50, "OPEN")],
+        # continuous and strictly increasing, but the two formulas differ by one ulp at the
+        # breakpoint in binary64 (0.2 * 64 vs -32 + 0.7 * 64)
+        "cont-noisy": [_lin(0, 0.2, 1, -100, 64), _lin(-32, 0.7, 1, 64, 100, "OPEN")],
     }
     for name, scales in sl.items():
         for it_, pt_ in (("A_INT32", "A_INT32"), ("A_INT32", "A_FLOAT64")):
@@ -509,10 +538,12 @@ def methods(tier):
     # RAT-FUNC
     rats = {"cent": ([0, 1], [100], [0, 100], [1]), "lin": ([1, 2], [1], [-0.5, 0.5], [1]), "quad": ([0, 0, 1], [1], None, None),
             "neg": ([-50, 1], [4], [50, 4], [1]), "negquad": ([-300, 0, 0.5], [1], None, None),
-            "frac": ([1, 1], [4], [-1, 4], [1]), "recip": ([10], [1, 1], None, None)}
+            "frac": ([1, 1], [4], [-1, 4], [1]), "recip": ([10], [1, 1], None, None),
+            # denominators of degree >= 1 whose coefficient list is not a palindrome
+            "moebius": ([10, 3], [4, 1], None, None), "den2": ([8, 0, 1], [2, 0, 1, 3], None, None)}
     for name, (num, den, inum, iden) in rats.items():
         for it_, pt_ in (("A_INT32", "A_FLOAT64"), ("A_INT32", "A_INT32")):
-            if name == "recip" and pt_ == "A_INT32":
+            if name in ("recip", "moebius", "den2") and pt_ == "A_INT32":
                 continue  # round(10/(1+x)): symbolic FP division is out of the solvers' reach
             cm = {"cat": "RAT-FUNC", "scales": [{"num": num, "den": den, "lo": 0, "hi": 100}]}
             if inum is not None:
@@ -567,6 +598,10 @@ def configs(tier, seed):
             out.append(dict(base, harness="inverse", bits=9, valid_range=vr[name],
                             id=f"inverse/{cat}/{it_}-{pt_}/{name}"))
         if cat == "RAT-FUNC" and "inv_scales" in cm and pt_ in FLOATS:
+            out.append(dict(base, harness="roundtrip", bits=bits,
+                            id=f"roundtrip/{cat}/{it_}-{pt_}/{name}"))
+        if cat == "SCALE-LINEAR" and name in ("cont-incr", "cont-decr", "cont-noisy") and pt_ in FLOATS:
+            # continuous and strictly monotone: injective, every image converts back
             out.append(dict(base, harness="roundtrip", bits=bits,
                             id=f"roundtrip/{cat}/{it_}-{pt_}/{name}"))
         if _injective(cat, it_, pt_, cm) and it_ in INTS:
